@@ -34,11 +34,12 @@ class Obs(object):
     """What the script observed for one operation."""
     __slots__ = ('op', 'kind', 'value', 'exc', 'code', 'pulled_before', 'closed_before',
                  'state_before', 'step', 'extra', 'pulled_after', 'send_failed_during',
-                 'closes_sent', 'lost_before')
+                 'closes_sent', 'lost_before', 'while_closing')
 
     def __init__(self, op):
         self.op = op
         self.kind = None       # 'ok' | 'exc'
+        self.while_closing = False
         self.value = None
         self.exc = None
         self.code = None
@@ -84,6 +85,7 @@ class WsHarness(object):
         self.first_disc_recv = None
         self.closing = False          # an application close() has started
         self.bg_tasks = []
+        self.rbg_tasks = []
         self.blocked = False
         self.finished = False
         self._build()
@@ -182,8 +184,15 @@ class WsHarness(object):
                 if stop:
                     break
             await self._join_bg()
+            for t in list(self.rbg_tasks):
+                if not t.done():
+                    try:
+                        await t
+                    except asyncio.CancelledError:
+                        if not t.cancelled():
+                            raise
         finally:
-            for t in self.bg_tasks:
+            for t in self.bg_tasks + self.rbg_tasks:
                 if not t.done():
                     t.cancel()
             self.script_done = True
@@ -266,6 +275,45 @@ class WsHarness(object):
             t = asyncio.ensure_future(bg())
             self.bg_tasks.append(t)
             self.note('send_bg')
+        elif kind == 'recv_bg':
+            # a receiver task running concurrently with the responder's later send / close steps
+            # (the script issues no further receive of its own: concurrent receives are not allowed)
+            async def rbg():
+                for _ in range(op[1]):
+                    await asyncio.sleep(0)
+                bo = Obs(('recv', 'text'))
+                bo.pulled_before = self.conn.disconnect_pulled
+                bo.closed_before = self.app_closed or self.closing
+                bo.lost_before = self.conn.lost
+                bo.step = self.loop.app_steps
+                self.obs.append(bo)
+                self.in_recv += 1
+                try:
+                    bo.value = await ws.receive_text()
+                    self.consumed += 1
+                    bo.kind = 'ok'
+                except asyncio.CancelledError:
+                    bo.kind = 'exc'
+                    bo.exc = 'CancelledError'
+                    raise
+                except Exception as ex:
+                    bo.kind = 'exc'
+                    bo.exc = type(ex).__name__
+                    bo.code = getattr(ex, 'code', None)
+                    bo.extra = str(ex)[:80]
+                    # did it fail while the other task's close() was in progress?
+                    bo.while_closing = bool(self.closing and not self.app_closed)
+                    if isinstance(ex, ferrors.PayloadTypeError):
+                        self.consumed += 1
+                    if isinstance(ex, ferrors.WebSocketDisconnected):
+                        self.disc_reported = True
+                finally:
+                    self.in_recv -= 1
+                bo.pulled_after = self.conn.disconnect_pulled
+                self.ctx.event('op', 'rbg', bo.brief())
+            t = asyncio.ensure_future(rbg())
+            self.rbg_tasks.append(t)
+            self.note('recv_bg')
         elif kind == 'join':
             await self._join_bg()
         elif kind == 'recv_cancel':
